@@ -43,7 +43,11 @@ def encode_entry(e, compress=None):
         method, data, length, crc = b"-lhd-", b"", 0, 0
     elif e.kind == "link":
         method, data, length, crc = b"-lhd-", b"", 0, 0
-        name = name + b"|" + e.target
+        # "dir/name|target" is split at its LAST '/' into the path and file-name headers (the file-name header
+        # cannot carry a separator), the way Unix LHA stores a link whose target has directory components
+        full = d + name + b"|" + e.target
+        i = full.rfind(b"/")
+        d, name = (full[:i + 1], full[i + 1:]) if i >= 0 else (b"", full)
         perms = 0o120777 if perms is None else perms
     elif compress is not None and method not in (b"-lh0-", b"-lz4-", b"-pm0-"):
         data = compress(method, e.data)
